@@ -9,6 +9,7 @@ vars == <<store, pend, done, dels, cnt>>
 Op(op, a, b, t) == [NoOp EXCEPT !.op = op, !.a = a, !.b = b, !.t = t]
 PoolSmall == {Op("AddCmd", 0, 0, <<1>>), Op("AddCmd", 0, 0, <<2>>), Op("DelCmd", 1, 0, <<>>),
               Op("NextCmdSeq", 0, 0, <<>>), Op("CmdsWithSeq", 0, -1, <<>>)}
+PoolTiny == {Op("AddCmd", 0, 0, <<1>>), Op("DelCmd", 1, 0, <<>>), Op("NextCmdSeq", 0, 0, <<>>), Op("CmdsWithSeq", 0, -1, <<>>)}
 PoolAll == PoolSmall \cup {Op("Cmd", 1, 0, <<>>), Op("PrevCmd", 3, 0, <<1>>), Op("NextCmd", 1, 0, <<>>)}
 Init == LinInit /\ done = <<>> /\ dels = {} /\ cnt = [c \in Clients |-> 0]
 Next == \E c \in Clients :
